@@ -39,7 +39,14 @@ fn kf2(scn: &Scn, clause: &str, detail: &str) -> bool {
     }
 }
 
-const PREDICATES: [(&str, fn(&Scn, &str, &str) -> bool); 2] = [("KF-1", kf1), ("KF-2", kf2)];
+fn kf3(scn: &Scn, clause: &str, _detail: &str) -> bool {
+    // C17(a): Debug of cipher's StreamCipherCoreWrapper prints `buffer_data`, the not yet consumed
+    // keystream bytes.  The clause is raised only for that field of the byte-stream aliases; the
+    // rest of the text and the cores' own Debug are compared under the clause "debug_text".
+    clause == "wrapper_debug_buffer_data" && scn.num("fam") == 1 && scn.num("part") == 0
+}
+
+const PREDICATES: [(&str, fn(&Scn, &str, &str) -> bool); 3] = [("KF-1", kf1), ("KF-2", kf2), ("KF-3", kf3)];
 
 /// returns the id of the matching open finding
 pub fn classify(findings: &[Finding], check: &str, scn: &Scn, clause: &str, detail: &str) -> Option<String> {
